@@ -37,3 +37,35 @@ Proof.
     rewrite E. rewrite (Qmult_comm step). apply Qmult_lt_compat_r; lra.
 Qed.
 Print Assumptions C02_grid.
+
+(* np.linspace(lo, hi, n) for n >= 2 : the log-distances of the trial grid *)
+Definition gridlog_m (lo hi : Q) (n : nat) : list Q :=
+  map (fun i => lo + inject_Z (Z.of_nat i) * ((hi - lo) / (inject_Z (Z.of_nat n) - 1))) (seq 0 n).
+
+Lemma gridlog_length lo hi n : length (gridlog_m lo hi n) = n.
+Proof. unfold gridlog_m. now rewrite map_length, seq_length. Qed.
+
+Lemma gridlog_nth lo hi n i : (i < n)%nat ->
+  nth i (gridlog_m lo hi n) 0 = lo + inject_Z (Z.of_nat i) * ((hi - lo) / (inject_Z (Z.of_nat n) - 1)).
+Proof.
+  intros H. unfold gridlog_m.
+  set (f := fun i : nat => lo + inject_Z (Z.of_nat i) * ((hi - lo) / (inject_Z (Z.of_nat n) - 1))).
+  rewrite (nth_indep _ 0 (f 0%nat)) by (rewrite map_length, seq_length; exact H).
+  rewrite map_nth, seq_nth by exact H. reflexivity.
+Qed.
+
+(* both ends of the requested range are on the grid and the spacing is uniform *)
+Theorem C02_grid_ends lo hi n : (2 <= n)%nat ->
+  nth 0 (gridlog_m lo hi n) 0 == lo /\ nth (n - 1) (gridlog_m lo hi n) 0 == hi /\
+  forall i, (S i < n)%nat -> nth (S i) (gridlog_m lo hi n) 0 - nth i (gridlog_m lo hi n) 0 == (hi - lo) / (inject_Z (Z.of_nat n) - 1).
+Proof.
+  intros Hn.
+  assert (Hd : ~ inject_Z (Z.of_nat n) - 1 == 0).
+  { assert (X : (2 <= Z.of_nat n)%Z) by lia. rewrite Zle_Qle in X. change (inject_Z 2) with 2 in X. lra. }
+  repeat split.
+  - rewrite gridlog_nth by lia. simpl. ring.
+  - rewrite gridlog_nth by lia. replace (Z.of_nat (n - 1)) with (Z.of_nat n - 1)%Z by lia.
+    unfold Z.sub. rewrite inject_Z_plus, inject_Z_opp. change (inject_Z 1) with 1. field. exact Hd.
+  - intros i Hi. rewrite !gridlog_nth by lia. replace (Z.of_nat (S i)) with (Z.of_nat i + 1)%Z by lia.
+    rewrite inject_Z_plus. change (inject_Z 1) with 1. field. exact Hd.
+Qed.
